@@ -630,6 +630,36 @@ SameMsg(m, d) ==
   /\ m.topic = d.topic /\ m.payload = d.payload /\ m.qos = d.q
   /\ m.retain = (d.rt = 1) /\ m.props = d.props
 
+\* C20: reply() and reply_owned() address exactly the requester.  d: the inbound PUBLISH as TLC decoded
+\* it from the broker's bytes; pr: what the harness obtained from the helpers (each reply published
+\* at QoS 0 through a side session; `bytes` is that PUBLISH as written to the wire).
+ReplyPayload == << 114, 101, 112, 108, 121 >>
+C20Check(h0, d, pr) ==
+  LET h == Tick(h0, "C20")
+      hasrt == HasProp(d.props, 8)
+      rt == IF hasrt THEN FirstProp(d.props, 8).s ELSE << >>
+      hascd == HasProp(d.props, 9)
+      cd == IF hascd THEN FirstProp(d.props, 9).s ELSE << >>
+      corr == IF hascd THEN << Prop(9, 0, cd, << >>) >> ELSE << >>
+      user == << Prop(38, 0, << 114, 107 >>, << 114, 118 >>) >>
+      Good(img, extra) ==
+        /\ img.ok
+        /\ LET p == DecClient(img.bytes) IN
+           /\ p.st = "ok" /\ p.t = PUBLISH /\ p.q = 0 /\ p.topic = rt
+           /\ p.props = corr \o extra /\ p.payload = ReplyPayload
+      OwnedOk(ow) ==
+        IF ~hasrt THEN ow.r = "none"
+        ELSE IF Len(rt) <= ow.t /\ (hascd => Len(cd) <= ow.c)
+        THEN /\ ow.r = "some" /\ ow.topic = rt /\ ow.hascd = hascd /\ ow.cd = cd /\ Good(ow.pub, << >>)
+        ELSE ow.r = "err"
+      h1 == Check(h, pr.offered = hasrt, "C20", "a reply is offered exactly when the request carries a response topic")
+      h2 == IF hasrt
+            THEN Check(Check(h1, Good(pr.plain, << >>), "C20", "reply() does not address the requester's response topic / correlation data"),
+                       Good(pr.decorated, user), "C20", "reply() with added user properties loses the response target")
+            ELSE h1
+  IN Check(h2, \A i \in 1..Len(pr.owned) : OwnedOk(pr.owned[i]), "C20",
+           "reply_owned(): wrong target, or a capacity overflow that is not reported as an error")
+
 RetDrive(h, e) ==
   \* poll / recv / drive
   LET o == h.op  r == e.r
@@ -669,7 +699,8 @@ RetDrive(h, e) ==
       h7 == IF r.k = "err" /\ r.v = "InflightExhausted"
             THEN CheckKF(h6, FALSE, "C06", "a QoS 2 exchange was dropped because too many wait for PUBCOMP", "D6", TRUE)
             ELSE h6
-  IN h7
+      h8 == IF o.hasmsg /\ r.k = "ok" /\ r.hasmsg /\ SameMsg(r.msg, o.msg) THEN C20Check(h7, o.msg, r.msg.probe) ELSE h7
+  IN h8
 
 RetConn(h, e) ==
   LET o == h.op  r == e.r  a == h.ack
@@ -875,7 +906,7 @@ Inv_C07 == Holds("C07")    Inv_C08 == Holds("C08")    Inv_C09 == Holds("C09")
 Inv_C10 == Holds("C10")    Inv_C11 == Holds("C11")    Inv_C12 == Holds("C12")
 Inv_C13 == Holds("C13")    Inv_C15 == Holds("C15")
 Inv_C14 == Holds("C14")    Inv_C16 == Holds("C16")    Inv_C17 == Holds("C17")
-Inv_C18 == Holds("C18")    Inv_C19 == Holds("C19")
+Inv_C18 == Holds("C18")    Inv_C19 == Holds("C19")    Inv_C20 == Holds("C20")
 
 Done == H.l > Len(Rec) => PrintT("@DONE " \o ToString(Len(Rec)))
 =============================================================================
